@@ -740,3 +740,445 @@ Example parse_structure_nonvacuous :
     ([bs ":2015"%string], [(bs "gzip"%string, 1%nat)]) ].
 Proof. vm_compute. auto. Qed.
 Local Close Scope string_scope.
+
+(* ================= imports ================= *)
+Section Imports.
+Variable env : list (bytes * bytes).
+Variable maxi : N.
+Variable globs : list ((N * bytes) * list N).
+Variable files : list (N * option (list token)).
+
+Definition same_line (a b : token) : bool :=
+  (t_file a =? t_file b) && (t_line a + count_nl (t_text a) =? t_line b)%Z.
+
+Lemma next_arg_yes st pre x y rest : at_pos st pre x (y :: rest) -> same_line x y = true ->
+  next_arg st = (true, set_cursor st (p_cursor st + 1)).
+Proof.
+  intros Hpos Hs. pose proof (plen_pos _ _ _ _ Hpos) as Hl. cbn [length] in Hl.
+  destruct (p_next_more _ _ _ _ _ Hpos) as [_ Hpos1].
+  unfold next_arg. pose proof (tok_at_pos _ _ _ _ Hpos) as Hx. pose proof (tok_at_pos _ _ _ _ Hpos1) as Hy.
+  cbn [set_cursor p_cursor] in Hy. unfold tok_at in Hy. cbn [set_cursor p_tokens] in Hy. fold (tok_at st (p_cursor st + 1)) in Hy.
+  destruct Hpos as [Ht Hc].
+  destruct (p_cursor st <? 0)%Z eqn:E1; [apply Z.ltb_lt in E1; lia|].
+  destruct (p_cursor st >=? plen st)%Z eqn:E2; [apply Z.geb_le in E2; lia|].
+  rewrite Hx, Hy. unfold same_line in Hs. rewrite Hs. reflexivity.
+Qed.
+Lemma next_arg_no st pre x rest :
+  at_pos st pre x rest -> match rest with [] => True | y :: _ => same_line x y = false end ->
+  fst (next_arg st) = false.
+Proof.
+  intros Hpos Hs. pose proof (plen_pos _ _ _ _ Hpos) as Hl.
+  unfold next_arg. pose proof (tok_at_pos _ _ _ _ Hpos) as Hx.
+  destruct (p_cursor st <? 0)%Z eqn:E1; [destruct Hpos as [_ Hc]; apply Z.ltb_lt in E1; lia|].
+  destruct (p_cursor st >=? plen st)%Z eqn:E2; [reflexivity|].
+  rewrite Hx. destruct rest as [|y rest].
+  - assert (Hn : tok_at st (p_cursor st + 1) = None).
+    { destruct Hpos as [Ht Hc]. unfold tok_at. rewrite Ht, Hc.
+      destruct (Z.of_nat (length pre) + 1 <? 0)%Z; [reflexivity|].
+      apply nth_error_None. rewrite app_length. cbn [length]. lia. }
+    rewrite Hn. reflexivity.
+  - destruct (p_next_more _ _ _ _ _ Hpos) as [_ Hpos1]. pose proof (tok_at_pos _ _ _ _ Hpos1) as Hy.
+    cbn [set_cursor p_cursor] in Hy. unfold tok_at in Hy. cbn [set_cursor p_tokens] in Hy. fold (tok_at st (p_cursor st + 1)) in Hy.
+    rewrite Hy. unfold same_line in Hs. rewrite Hs. reflexivity.
+Qed.
+
+Definition st_imp (st : pst) (toks : list token) (c : Z) : pst :=
+  {| p_tokens := toks; p_cursor := c; p_keys := p_keys st; p_btoks := p_btoks st; p_eof := p_eof st;
+     p_snips := p_snips st; p_imports := (p_imports st + 1)%N |}.
+
+(* an import statement [imp arg] whose pattern resolves (through the glob oracle) to files *)
+Definition import_ready (st : pst) (imp arg : token) (post : list token) (pat : bytes) (toks : list token) : Prop :=
+  same_line imp arg = true /\ renv env (t_text arg) = pat /\ pat <> [] /\
+  match post with [] => True | y :: _ => same_line arg y = false end /\
+  lookup_s (p_snips st) pat = None /\ glob_ok pat = true /\
+  exists ids, ids <> [] /\ lookup_g globs (t_file arg) pat = Some ids /\ import_files files ids = POk toks.
+
+Lemma do_import_over st pre imp arg post pat toks :
+  at_pos st pre imp (arg :: post) -> import_ready st imp arg post pat toks ->
+  (maxi <? p_imports st + 1)%N = true ->
+  do_import env maxi globs files st = PErr ECycle.
+Proof.
+  intros Hpos (Hs & Hpat & Hne & _) Hover.
+  unfold do_import. rewrite (next_arg_yes _ _ _ _ _ Hpos Hs).
+  destruct (p_next_more _ _ _ _ _ Hpos) as [_ Hpos1]. cbn [negb].
+  rewrite (pval_pos _ _ _ _ Hpos1), Hpat. destruct pat; [congruence|].
+  cbn [set_cursor p_imports]. rewrite Hover. reflexivity.
+Qed.
+
+Lemma do_import_ok st pre imp arg post pat toks :
+  at_pos st pre imp (arg :: post) -> import_ready st imp arg post pat toks ->
+  (maxi <? p_imports st + 1)%N = false ->
+  do_import env maxi globs files st = POk (st_imp st (pre ++ toks ++ post) (Z.of_nat (length pre))).
+Proof.
+  intros Hpos (Hs & Hpat & Hne & Hpost & Hsn & Hg & ids & Hids & Hlg & Hif) Hcap.
+  unfold do_import. rewrite (next_arg_yes _ _ _ _ _ Hpos Hs).
+  destruct (p_next_more _ _ _ _ _ Hpos) as [_ Hpos1]. cbn [negb].
+  set (st1 := set_cursor st (p_cursor st + 1)) in *.
+  rewrite (pval_pos _ _ _ _ Hpos1), Hpat. destruct pat as [|p0 pt]; [congruence|].
+  change (p_imports st1) with (p_imports st). rewrite Hcap.
+  pose proof (next_arg_no _ _ _ _ Hpos1 Hpost) as Hno.
+  destruct (next_arg st1) as [has2 stx]. cbn [fst] in Hno. subst has2.
+  destruct Hpos1 as [Ht1 Hc1]. rewrite app_length in Hc1. cbn [length] in Hc1.
+  unfold zslice_to, zslice_from. rewrite Hc1.
+  destruct (Z.of_nat (length pre + 1) - 1 <? 0)%Z eqn:E1; [apply Z.ltb_lt in E1; lia|].
+  destruct (Z.of_nat (length pre + 1) + 1 <? 0)%Z eqn:E2; [apply Z.ltb_lt in E2; lia|].
+  replace (Z.to_nat (Z.of_nat (length pre + 1) - 1)) with (length pre) by lia.
+  replace (Z.to_nat (Z.of_nat (length pre + 1) + 1)) with (length pre + 2)%nat by lia.
+  unfold slice, slice_from. rewrite Ht1, <- app_assoc. cbn [app].
+  rewrite !app_length. cbn [length].
+  replace (Nat.leb 0 (length pre)) with true by (symmetry; apply Nat.leb_le; lia).
+  replace (Nat.leb (length pre) (length pre + S (S (length post)))) with true by (symmetry; apply Nat.leb_le; lia).
+  replace (Nat.leb (length pre + 2) (length pre + S (S (length post)))) with true by (symmetry; apply Nat.leb_le; lia).
+  cbn [andb skipn]. rewrite Nat.sub_0_r, firstn_app, Nat.sub_diag, firstn_all. cbn [firstn]. rewrite app_nil_r.
+  rewrite skipn_app, skipn_all2 by lia. replace (length pre + 2 - length pre)%nat with 2%nat by lia. cbn [skipn app].
+  unfold imported_tokens. change (p_snips st1) with (p_snips st). rewrite Hsn, Hg. cbn [negb].
+  assert (Hf : tok_at st1 (p_cursor st1) = Some arg).
+  { apply (tok_at_pos st1 (pre ++ [imp]) arg post). split; [rewrite Ht1, <- app_assoc; reflexivity|rewrite app_length; cbn [length]; lia]. }
+  rewrite Hf, Hlg. destruct ids as [|i0 ids']; [congruence|]. rewrite Hif.
+  f_equal. unfold st_imp. cbn [st1 set_cursor p_keys p_btoks p_eof p_snips p_imports]. f_equal. lia.
+Qed.
+
+Lemma directives_lines : forall ls done nxt post f st,
+  at_end st done (flat_lines ls ++ nxt :: post) ->
+  lines_ok env ls nxt = true -> (length (flat_lines ls) < f)%nat ->
+  directives env maxi globs files (length ls + f) st =
+  directives env maxi globs files f
+    (st_with st (done ++ exp_lines env ls ++ nxt :: post) (Z.of_nat (length (done ++ exp_lines env ls)) - 1)
+             (push_lines env (p_btoks st) ls)).
+Proof.
+  induction ls as [|[d seg] r IH]; intros done nxt post f st Hend Hok Hf.
+  - cbn [length Nat.add exp_lines flat_lines map concat app push_lines fold_left] in *.
+    rewrite app_nil_r. destruct Hend as [Ht Hc]. rewrite <- Ht, <- Hc, <- st_with_eta. reflexivity.
+  - rewrite flat_lines_cons in Hend, Hf. cbn [fst snd app length] in Hend, Hf. rewrite app_length in Hf.
+    destruct (p_next_end2 _ _ _ _ Hend) as [Hn Hpos]. cbn [length Nat.add directives]. rewrite Hn. cbn [negb].
+    cbn [lines_ok] in Hok. repeat (apply andb_true_iff in Hok as [Hok ?]).
+    rename H into Hrest, H0 into Hfol, H1 into Hline, H2 into Himp.
+    apply negb_true_iff in Hok, Himp.
+    rewrite (pval_pos _ _ _ _ Hpos), Hok, Himp.
+    set (st1 := set_cursor st (p_cursor st + 1)) in *.
+    assert (Hend1 : at_end st1 (done ++ [d]) (seg ++ flat_lines r ++ nxt :: post)).
+    { apply at_end_pos. rewrite <- app_assoc in Hpos. exact Hpos. }
+    assert (Hpo : post_ok (last (map (exp_tok env) seg) d) (flat_lines r ++ nxt :: post)).
+    { unfold follow_ok in Hfol. apply andb_true_iff in Hfol as [H1 H2]. apply negb_true_iff in H1.
+      destruct r as [|[d' sg'] r']; cbn; auto. }
+    rewrite (directive_ok env maxi globs files _ _ _ _ (length r + f) _ Hend1 Hline ltac:(lia) Hpo).
+    match goal with |- directives _ _ _ _ _ ?s = _ => set (st2 := s) end.
+    assert (Hend2 : at_end st2 (done ++ exp_line env (d, seg)) (flat_lines r ++ nxt :: post)).
+    { split; reflexivity. }
+    rewrite (IH _ _ _ f _ Hend2 Hrest ltac:(lia)).
+    f_equal. unfold st2. rewrite st_with_with. unfold st_with. cbn [st1 set_cursor p_keys p_eof p_snips p_imports p_btoks push_lines fold_left].
+    rewrite exp_lines_cons. unfold exp_line. cbn [fst snd].
+    f_equal; repeat (rewrite <- ?app_assoc; cbn [app]); reflexivity.
+Qed.
+
+(* ---- import chains that never end: every reachable file is "lines; import next; rest" ---- *)
+Record node := { n_lines : list dline; n_imp : token; n_arg : token; n_tail : list token; n_pat : bytes; n_next : N }.
+Definition node_toks (nd : node) : list token :=
+  flat_lines (n_lines nd) ++ n_imp nd :: n_arg nd :: n_tail nd.
+
+Lemma lines_le_flat (ls : list dline) : (length ls <= length (flat_lines ls))%nat.
+Proof.
+  induction ls as [|l r IH]; [cbn; lia|]. rewrite flat_lines_cons. cbn [length]. rewrite app_length. lia.
+Qed.
+
+Section Chain.
+Variable graph : N -> option node.     (* the files of the chain (and the importing block) *)
+Variable L : nat.                      (* bound on the tokens before the import in each of them *)
+
+(* a token that is not on the line of any import argument of the chain *)
+Definition far (y : token) : Prop := forall id nd, graph id = Some nd -> same_line (n_arg nd) y = false.
+
+Definition chain_node (nd : node) : Prop :=
+  lines_ok env (n_lines nd) (n_imp nd) = true /\ t_text (n_imp nd) = IMPORT /\
+  same_line (n_imp nd) (n_arg nd) = true /\ renv env (t_text (n_arg nd)) = n_pat nd /\ n_pat nd <> [] /\
+  Forall far (n_tail nd) /\
+  glob_ok (n_pat nd) = true /\ lookup_g globs (t_file (n_arg nd)) (n_pat nd) = Some [n_next nd] /\
+  (length (flat_lines (n_lines nd)) <= L)%nat /\
+  exists nd', graph (n_next nd) = Some nd' /\ lookup_f files (n_next nd) = Some (Some (node_toks nd')).
+Definition closed_chain : Prop := forall id nd, graph id = Some nd -> chain_node nd.
+
+Lemma chain_directives : closed_chain -> forall r id nd done post st fuel,
+  graph id = Some nd -> at_end st done (node_toks nd ++ post) -> Forall far post -> p_snips st = [] ->
+  (N.to_nat (p_imports st) + r = N.to_nat maxi)%nat ->
+  (S r * (L + 2) + L <= fuel)%nat ->
+  directives env maxi globs files fuel st = PErr ECycle.
+Proof.
+  intros Hclosed. induction r as [|r IH]; intros id nd done post st fuel Hg Hend Hfar Hsn Hbud Hfuel;
+    destruct (Hclosed _ _ Hg) as (Hlines & Himp & Hsame & Hpat & Hne & Htail & Hglob & Hlg & HL & nd' & Hg' & Hf');
+    rewrite Nat.mul_succ_l in Hfuel;
+    pose proof (lines_le_flat (n_lines nd)) as Hll.
+  all: unfold node_toks in Hend; rewrite <- app_assoc in Hend; cbn [app] in Hend.
+  all: replace fuel with (length (n_lines nd) + (fuel - length (n_lines nd)))%nat by lia.
+  all: rewrite (directives_lines (n_lines nd) done (n_imp nd) (n_arg nd :: n_tail nd ++ post) (fuel - length (n_lines nd)) st Hend Hlines ltac:(lia)).
+  all: match goal with |- directives _ _ _ _ ?f ?s = _ => set (st1 := s); set (f1 := f) end.
+  all: assert (Hend1 : at_end st1 (done ++ exp_lines env (n_lines nd)) (n_imp nd :: n_arg nd :: n_tail nd ++ post))
+         by (split; [cbn [st1 st_with p_tokens]; rewrite <- app_assoc; reflexivity|reflexivity]).
+  all: destruct f1 as [|f2] eqn:Ef1; [unfold f1 in Ef1; lia|].
+  all: destruct (p_next_end2 _ _ _ _ Hend1) as [Hn Hpos]; cbn [directives]; rewrite Hn; cbn [negb].
+  all: rewrite (pval_pos _ _ _ _ Hpos), Himp; change (beq IMPORT RBRACE) with false; change (beq IMPORT IMPORT) with true; cbn iota.
+  all: set (st2 := set_cursor st1 (p_cursor st1 + 1)) in *.
+  all: assert (Hfar2 : Forall far (n_tail nd ++ post)) by (apply Forall_app; split; assumption).
+  all: assert (Hready : import_ready st2 (n_imp nd) (n_arg nd) (n_tail nd ++ post) (n_pat nd) (node_toks nd' ++ []))
+        by (repeat split; try assumption;
+            [ destruct (n_tail nd ++ post) as [|y tl]; [exact I|inversion Hfar2 as [|? ? Hy _]; exact (Hy _ _ Hg)]
+            | cbn [st2 st1 set_cursor st_with p_snips]; rewrite Hsn; reflexivity
+            | exists [n_next nd]; repeat split; [discriminate|exact Hlg|cbn [import_files]; rewrite Hf'; reflexivity] ]).
+  - (* budget exhausted *)
+    rewrite (do_import_over _ _ _ _ _ _ _ Hpos Hready); [reflexivity|].
+    cbn [st2 st1 set_cursor st_with p_imports]. apply N.ltb_lt. lia.
+  - rewrite (do_import_ok _ _ _ _ _ _ _ Hpos Hready).
+    2:{ cbn [st2 st1 set_cursor st_with p_imports]. apply N.ltb_ge. lia. }
+    match goal with |- directives _ _ _ _ f2 ?s = _ => set (st3 := s) end.
+    apply (IH (n_next nd) nd' (done ++ exp_lines env (n_lines nd)) (n_tail nd ++ post) st3 f2 Hg').
+    + split; cbn [st3 st_imp set_cursor p_tokens p_cursor].
+      * rewrite app_nil_r, <- !app_assoc. reflexivity.
+      * lia.
+    + exact Hfar2.
+    + cbn [st3 st_imp set_cursor p_snips st2 st1 st_with]. exact Hsn.
+    + cbn [st3 st_imp set_cursor p_imports st2 st1 st_with]. lia.
+    + unfold f1 in Ef1. lia.
+Qed.
+
+(* a server block whose directives run into such a chain: the parse reports the import-cycle error
+   (never PFuel), whatever the bound maxi, the length of the cycle, the directive lines in front of
+   each import and the tokens after it *)
+Theorem parse_cycle_error : closed_chain -> forall id0 entry k ks lb post fuel,
+  graph id0 = Some entry ->
+  keys_ok env k ks = true -> is_snippet (map (key_of env) (k :: ks)) = false -> t_text lb = LBRACE ->
+  Forall far post ->
+  (S (N.to_nat maxi) * (L + 2) + L + length ks + 3 <= fuel)%nat ->
+  parse_tokens env maxi globs files fuel (k :: ks ++ lb :: node_toks entry ++ post) = PErr ECycle.
+Proof.
+  intros Hclosed id0 entry k ks lb post fuel Hg Hkeys Hsn Hlb Hfar Hfuel.
+  unfold parse_tokens. destruct fuel as [|f]; [lia|]. cbn [parse_all].
+  set (T := k :: ks ++ lb :: node_toks entry ++ post).
+  assert (Hend : at_end (init_st T) [] T) by (split; reflexivity).
+  destruct (p_next_end2 _ _ _ _ Hend) as [Hn Hpos]. rewrite Hn. cbn [negb].
+  set (st1 := set_cursor (init_st T) (p_cursor (init_st T) + 1)) in *.
+  rewrite parse_one_unfold by (cbn; discriminate).
+  assert (Hend0 : at_end (reset_block st1) ([] ++ [k]) (ks ++ lb :: node_toks entry ++ post)) by (split; reflexivity).
+  rewrite (addr_ok env maxi globs files _ _ _ _ _ (S f) _ false Hend0 Hkeys Hlb ltac:(lia)).
+  cbn [st_keys p_eof reset_block st1 set_cursor init_st p_keys app]. rewrite Hsn.
+  match goal with |- context [block_contents _ _ _ _ _ ?s] => set (st2 := s) end.
+  assert (Hpos2 : at_pos st2 (k :: ks) lb (node_toks entry ++ post)).
+  { split; cbn [st2 p_tokens p_cursor app]; [reflexivity|reflexivity]. }
+  unfold block_contents. rewrite (pval_pos _ _ _ _ Hpos2), Hlb. change (beq LBRACE LBRACE) with true. cbn iota.
+  rewrite (chain_directives Hclosed (N.to_nat maxi) id0 entry ((k :: ks) ++ [lb]) post st2 (S f) Hg
+             (proj2 (at_end_pos _ _ _ _) Hpos2) Hfar eq_refl ltac:(cbn; lia) ltac:(lia)).
+  reflexivity.
+Qed.
+End Chain.
+End Imports.
+
+(* a concrete chain: the main block imports c.conf, which imports itself *)
+Module CycleExample.
+Local Open Scope string_scope.
+Definition tk (f : N) (l : Z) (s : string) : token := {| t_file := f; t_line := l; t_text := bs s |}.
+Definition entry : node :=
+  {| n_lines := [(tk 0 2 "gzip", [])]; n_imp := tk 0 3 "import"; n_arg := tk 0 3 "c.conf"; n_tail := [];
+     n_pat := bs "c.conf"; n_next := 1 |}.
+Definition node1 : node :=
+  {| n_lines := [(tk 1 1 "dir1", [tk 1 1 "x"])]; n_imp := tk 1 2 "import"; n_arg := tk 1 2 "c.conf";
+     n_tail := [tk 1 3 "dir2"; tk 1 3 "after"]; n_pat := bs "c.conf"; n_next := 1 |}.
+Definition graph (id : N) : option node :=
+  if id =? 0 then Some entry else if id =? 1 then Some node1 else None.
+Definition files : list (N * option (list token)) := [(1, Some (node_toks node1))].
+Definition globs : list ((N * bytes) * list N) := [((0, bs "c.conf"), [1]); ((1, bs "c.conf"), [1])].
+Definition rb : token := tk 0 4 "}".
+
+Ltac far_tac :=
+  let i := fresh "i" in let n := fresh "n" in let Hi := fresh "Hi" in
+  intros i n Hi; unfold graph in Hi;
+  destruct (i =? 0); [injection Hi as <-; reflexivity|];
+  destruct (i =? 1); [injection Hi as <-; reflexivity|discriminate].
+
+Lemma chain_closed : closed_chain [] globs files graph 2 .
+Proof.
+  intros id nd H. unfold graph in H.
+  destruct (id =? 0); [injection H as <-|destruct (id =? 1); [injection H as <-|discriminate]].
+  all: unfold chain_node.
+  all: split; [vm_compute; reflexivity|]; split; [reflexivity|]; split; [vm_compute; reflexivity|];
+       split; [vm_compute; reflexivity|]; split; [discriminate|]; split; [repeat constructor; far_tac|];
+       split; [vm_compute; reflexivity|]; split; [vm_compute; reflexivity|]; split; [vm_compute; lia|];
+       exists node1; split; reflexivity.
+Qed.
+Lemma rb_far : Forall (far graph) [rb].
+Proof. repeat constructor; far_tac. Qed.
+(* the tokens are those of the texts *)
+Lemma texts :
+  lex (bs "a.com {
+gzip
+import c.conf
+}
+") = tk 0 1 "a.com" :: [] ++ tk 0 1 "{" :: node_toks entry ++ [rb] /\
+  retag 1 (lex (bs "dir1 x
+import c.conf
+dir2 after
+")) = node_toks node1.
+Proof. split; vm_compute; reflexivity. Qed.
+End CycleExample.
+
+(* ================= environment expansion: one pass, no rescanning ================= *)
+Transparent renv.
+Lemma index_sub_from_spec : forall s sub i n, index_sub_from s sub i = Some n ->
+  exists k, n = (i + k)%nat /\ (k <= length s)%nat /\ has_prefix (skipn k s) sub = true.
+Proof.
+  induction s as [|c r IH]; intros sub i n H; cbn [index_sub_from] in H.
+  - destruct (has_prefix [] sub) eqn:E; [|discriminate]. injection H as <-. exists 0%nat. cbn. repeat split; [lia|lia|exact E].
+  - destruct (has_prefix (c :: r) sub) eqn:E.
+    + injection H as <-. exists 0%nat. repeat split; [lia|cbn; lia|exact E].
+    + apply IH in H as (k & -> & Hk & Hp). exists (S k). repeat split; [lia|cbn; lia|exact Hp].
+Qed.
+
+(* replace_refs only ever appends to [done]: whatever has been produced (including substituted
+   values) is a prefix of the result and is never looked at again *)
+Lemma replace_refs_prefix : forall fuel env done s rs re,
+  exists tl, replace_refs fuel env done s rs re = done ++ tl.
+Proof.
+  induction fuel as [|f IH]; intros env done s rs re; cbn [replace_refs]; [eexists; reflexivity|].
+  destruct (index_sub s rs) as [i|]; [|eexists; reflexivity].
+  destruct (index_sub (skipn i s) re) as [e0|]; [|eexists; reflexivity].
+  destruct (Nat.ltb (length rs) e0); [|eexists; reflexivity].
+  destruct (IH env (done ++ firstn i s ++ getenv env (firstn (e0 - length rs) (skipn (i + length rs) s)))
+               (skipn (i + e0 + length re) s) rs re) as [tl Htl].
+  rewrite Htl, <- app_assoc. eexists; reflexivity.
+Qed.
+
+(* the output does not depend on what is already done: the scan state is the unread suffix only *)
+Lemma replace_refs_done : forall fuel env done s rs re,
+  replace_refs fuel env done s rs re = done ++ replace_refs fuel env [] s rs re.
+Proof.
+  induction fuel as [|f IH]; intros env done s rs re; cbn [replace_refs]; [reflexivity|].
+  destruct (index_sub s rs) as [i|]; [|reflexivity].
+  destruct (index_sub (skipn i s) re) as [e0|]; [|reflexivity].
+  destruct (Nat.ltb (length rs) e0); [|reflexivity].
+  rewrite IH. rewrite (IH env ([] ++ _)). cbn [app]. rewrite <- !app_assoc. reflexivity.
+Qed.
+
+(* one step of the pass: text before the reference, the VALUE VERBATIM, then the expansion of the
+   rest of the input only — the value is never scanned, even if it contains a reference *)
+Lemma replace_refs_step f env s rs re i e0 :
+  index_sub s rs = Some i -> index_sub (skipn i s) re = Some e0 -> Nat.ltb (length rs) e0 = true ->
+  replace_refs (S f) env [] s rs re =
+  firstn i s ++ getenv env (firstn (e0 - length rs) (skipn (i + length rs) s)) ++
+  replace_refs f env [] (skipn (i + e0 + length re) s) rs re.
+Proof.
+  intros H1 H2 H3. cbn [replace_refs]. rewrite H1, H2, H3. rewrite replace_refs_done. cbn [app].
+  rewrite <- app_assoc. reflexivity.
+Qed.
+
+(* termination of the pass: each step consumes at least one character, so the length of the input
+   is enough fuel: more fuel never changes the result *)
+Lemma skipn_length_lt {A} (s : list A) n : (0 < n)%nat -> s <> [] -> (length (skipn n s) < length s)%nat.
+Proof. intros Hn Hs. rewrite skipn_length. destruct s; [congruence|]. cbn [length]. lia. Qed.
+
+Lemma replace_refs_fuel : forall n f env done s rs re, (length s < n)%nat -> (n <= f)%nat -> re <> [] ->
+  replace_refs f env done s rs re = replace_refs n env done s rs re.
+Proof.
+  induction n as [|n IH]; intros f env done s rs re Hs Hf Hre; [lia|].
+  destruct f as [|f]; [lia|]. cbn [replace_refs].
+  destruct (index_sub s rs) as [i|] eqn:E1; [|reflexivity].
+  destruct (index_sub (skipn i s) re) as [e0|] eqn:E2; [|reflexivity].
+  destruct (Nat.ltb (length rs) e0) eqn:E3; [|reflexivity].
+  apply IH; [|lia|exact Hre].
+  apply Nat.ltb_lt in E3.
+  assert (length (skipn (i + e0 + length re) s) < length s)%nat; [|lia].
+  apply skipn_length_lt; [destruct re; [congruence|cbn; lia]|].
+  intros ->. unfold index_sub in E1. apply index_sub_from_spec in E1 as (k & -> & Hk & _). cbn in Hk.
+  assert (k = 0%nat) by lia. subst k. cbn in E2.
+  destruct re; [congruence|discriminate].
+Qed.
+
+(* ================= lexer: totality facts over ALL rune lists ================= *)
+Inductive subseq : list N -> list N -> Prop :=
+| ss_nil : subseq [] []
+| ss_skip x a b : subseq a b -> subseq a (x :: b)
+| ss_take x a b : subseq a b -> subseq (x :: a) (x :: b).
+
+Lemma subseq_nil_l b : subseq [] b.
+Proof. induction b; constructor; assumption. Qed.
+
+Definition texts (ts : list token) : list N := concat (map t_text ts).
+
+(* every character of every token text comes from the input, in input order: the lexer only drops
+   characters (separators, comments, quotes, the backslash of an escaped quote), it never invents,
+   duplicates or reorders one; the text accumulated so far is emitted first *)
+Lemma lex_go_subseq : forall inp line val tline c q e,
+  exists tl, texts (lex_go inp line val tline c q e) = rev val ++ tl /\
+             subseq tl ((if e then [BSL] else []) ++ inp).
+Proof.
+  induction inp as [|ch r IH]; intros line val tline c q e.
+  - cbn [lex_go]. destruct val as [|v0 vr].
+    + exists []. split; [reflexivity|]. apply subseq_nil_l.
+    + exists []. split; [cbn [texts map concat t_text]; rewrite !app_nil_r; reflexivity|apply subseq_nil_l].
+  - cbn [lex_go]. destruct q.
+    + (* quoted *)
+      destruct (negb e && (ch =? BSL)) eqn:E1.
+      { destruct e; [discriminate|]. destruct (IH line val tline c true true) as (tl & H1 & H2).
+        exists tl. split; [exact H1|]. cbn [app] in *.
+        apply andb_true_iff in E1 as [_ E1]. apply N.eqb_eq in E1. subst ch. exact H2. }
+      destruct (negb e && (ch =? QUOTE)) eqn:E2.
+      { destruct e; [discriminate|]. destruct (IH line [] 0%Z false false false) as (tl & H1 & H2).
+        cbn [rev app] in H1. exists tl. cbn [texts map concat t_text]. fold (texts (lex_go r line [] 0%Z false false false)).
+        rewrite H1. split; [reflexivity|]. cbn [app] in *. apply ss_skip. exact H2. }
+      destruct e.
+      * cbn [andb]. destruct (ch =? QUOTE) eqn:Eq.
+        -- cbn [negb]. match goal with |- context [lex_go r ?l ?v tline c true false] => destruct (IH l v tline c true false) as (tl & H1 & H2) end.
+           cbn [rev] in H1. rewrite <- app_assoc in H1. cbn [app] in H1, H2 |- *.
+           exists (ch :: tl). split; [exact H1|]. apply ss_skip, ss_take, H2.
+        -- cbn [negb]. match goal with |- context [lex_go r ?l ?v tline c true false] => destruct (IH l v tline c true false) as (tl & H1 & H2) end.
+           cbn [rev] in H1. rewrite <- !app_assoc in H1. cbn [app] in H1, H2 |- *.
+           exists (BSL :: ch :: tl). split; [exact H1|]. apply ss_take, ss_take, H2.
+      * cbn [andb]. match goal with |- context [lex_go r ?l ?v tline c true false] => destruct (IH l v tline c true false) as (tl & H1 & H2) end.
+        cbn [rev] in H1. rewrite <- app_assoc in H1. cbn [app] in H1, H2 |- *.
+        exists (ch :: tl). split; [exact H1|]. apply ss_take, H2.
+    + (* not quoted: [e] is false on every path that reaches here from [lex]; in general the
+         pending backslash is simply dropped *)
+      assert (Hdrop : forall tl, subseq tl r -> subseq tl ((if e then [BSL] else []) ++ ch :: r)).
+      { intros tl H. destruct e; cbn [app]; repeat apply ss_skip; exact H. }
+      assert (Htake : forall tl, subseq tl r -> subseq (ch :: tl) ((if e then [BSL] else []) ++ ch :: r)).
+      { intros tl H. destruct e; cbn [app]; [apply ss_skip|]; apply ss_take; exact H. }
+      destruct (is_space ch).
+      * destruct (ch =? CR).
+        { destruct (IH line val tline c false false) as (tl & H1 & H2). exists tl. split; [exact H1|]. apply Hdrop, H2. }
+        destruct val as [|v0 vr].
+        { match goal with |- context [lex_go r ?l [] tline ?cc false false] => destruct (IH l [] tline cc false false) as (tl & H1 & H2) end.
+          exists tl. split; [exact H1|]. apply Hdrop, H2. }
+        match goal with |- context [lex_go r ?l [] 0%Z false false false] => destruct (IH l [] 0%Z false false false) as (tl & H1 & H2) end.
+        cbn [rev app] in H1. exists tl. cbn [texts map concat t_text].
+        match goal with |- context [concat (map t_text ?x)] => change (concat (map t_text x)) with (texts x) end.
+        rewrite H1. split; [reflexivity|]. apply Hdrop, H2.
+      * destruct (c || (ch =? HASH)).
+        { destruct (IH line val tline true false false) as (tl & H1 & H2). exists tl. split; [exact H1|]. apply Hdrop, H2. }
+        destruct val as [|v0 vr].
+        { destruct (ch =? QUOTE).
+          - destruct (IH line [] line false true false) as (tl & H1 & H2). exists tl. split; [exact H1|]. apply Hdrop, H2.
+          - destruct (IH line [ch] line false false false) as (tl & H1 & H2). cbn [rev app] in H1.
+            exists (ch :: tl). split; [exact H1|]. apply Htake, H2. }
+        destruct (IH line (ch :: v0 :: vr) tline false false false) as (tl & H1 & H2).
+        cbn [rev] in H1 |- *. rewrite <- !app_assoc in H1. cbn [app] in H1.
+        exists (ch :: tl). split; [rewrite <- app_assoc; exact H1|]. apply Htake, H2.
+Qed.
+
+Theorem lex_subseq inp : subseq (texts (lex inp)) inp.
+Proof.
+  unfold lex. destruct inp as [|c r]; [constructor|].
+  destruct (c =? BOM).
+  - destruct (lex_go_subseq r 1%Z [] 0%Z false false false) as (tl & H1 & H2).
+    cbn [rev app] in H1, H2. rewrite H1. apply ss_skip, H2.
+  - destruct (lex_go_subseq (c :: r) 1%Z [] 0%Z false false false) as (tl & H1 & H2).
+    cbn [rev app] in H1, H2. rewrite H1. exact H2.
+Qed.
+
+Lemma subseq_length a b : subseq a b -> (length a <= length b)%nat.
+Proof. induction 1; cbn; lia. Qed.
+(* consequently the lexer consumes its whole input and its output is bounded by it *)
+Corollary lex_texts_length inp : (length (texts (lex inp)) <= length inp)%nat.
+Proof. apply subseq_length, lex_subseq. Qed.
+
+(* text projection of a parse result *)
+Definition texts_of (r : pres (list block)) : option (list (list bytes * list (bytes * list bytes))) :=
+  match r with
+  | POk bl => Some (map (fun b => (fst b, map (fun g => (fst g, map t_text (snd g))) (snd b))) bl)
+  | _ => None
+  end.
